@@ -17,7 +17,7 @@ ALL2 = list(extract.ALL_TARGETS) + [t + "@release" for t in extract.ALL_TARGETS]
 TARGETS = {
     # property -> (quick targets, thorough targets)
     "C01": ([H, A64L, ARM, HR, A64M, WIN], ALL2),
-    "C16": ([ARM], [ARM, "thumbv7neon-unknown-linux-gnueabihf", ARM + "@release", "thumbv7neon-unknown-linux-gnueabihf@release"]),
+    "C16": ([ARM, ARM + "@release"], [ARM, "thumbv7neon-unknown-linux-gnueabihf", ARM + "@release", "thumbv7neon-unknown-linux-gnueabihf@release"]),
     "C13": ([H, A64L, ARM, HR, A64M], ALL2),
     "C02": ([H, A64L, ARM, HR, A64M, WIN], ALL2),
     "C03": ([H, A64L, ARM, HR, A64M, WIN], ALL2),
@@ -30,9 +30,9 @@ TARGETS = {
     "C07": ([H, HR], [H, HR]),
     "C08": ([H, HR], [H, HR]),
     "C09": ([H, HR], [H, HR]),
-    "C14": ([H, A64L], [H, A64L, ARM, A64M, HR, A64L + "@release"]),
+    "C14": ([H, A64L, HR], [H, A64L, ARM, A64M, HR, A64L + "@release"]),
     "C10": ([H, A64L, ARM, HR, A64M], ALL2),
-    "C15": ([A64L, A64M], [A64L, A64M, "aarch64-pc-windows-msvc", A64L + "@release", A64M + "@release", "aarch64-pc-windows-msvc@release"]),
+    "C15": ([A64L, A64M, A64L + "@release"], [A64L, A64M, "aarch64-pc-windows-msvc", A64L + "@release", A64M + "@release", "aarch64-pc-windows-msvc@release"]),
 }
 
 EXPLAIN = {}
